@@ -60,7 +60,17 @@ func main() {
 	tier := flag.String("tier", "quick", "quick|thorough")
 	outDir := flag.String("out", "", "output directory")
 	replay := flag.String("replay", "", "file with op lines to run instead of generating")
+	evalop := flag.String("evalop", "", "evaluate one op line in this process and print the result (child mode)")
 	flag.Parse()
+	if *evalop != "" {
+		glogDir, _ := os.MkdirTemp("", "mlh-glog")
+		_ = flag.Set("log_dir", glogDir)
+		_ = flag.Set("stderrthreshold", "FATAL")
+		res := evalOpHere(*evalop)
+		os.RemoveAll(glogDir)
+		fmt.Println(res)
+		return
+	}
 	if flag.NArg() != 1 || *outDir == "" {
 		names := []string{}
 		for k := range generators {
@@ -125,7 +135,14 @@ var evaluators = map[string]func(args []string) string{}
 func registerEval(word string, fn func(args []string) string) { evaluators[word] = fn }
 
 // evalOp runs the implementation on one op line, mapping a panic to "panic".
-func evalOp(line string) (res string) {
+func evalOp(line string) string {
+	if w := strings.SplitN(line, " ", 2)[0]; childOps[w] {
+		return evalInChild(line)
+	}
+	return evalOpHere(line)
+}
+
+func evalOpHere(line string) (res string) {
 	defer func() {
 		if e := recover(); e != nil {
 			res = "panic"
